@@ -47,7 +47,9 @@ def padded_text(e, r, value, ulength, pad):
     as_cps = And(S.slen(r) == ulength,
                  z3.ForAll([i], Implies(And(i >= 0, i < pl), z3.Select(S.cps(r), i) == pad)),
                  z3.Select(S.cps(r), pl) == value)
-    as_u8 = And(S.u8len(r) == pl + S.utf8_len(value),
+    # CPython's strict UTF-8 decoder rejects the 3-byte forms of U+D800..U+DFFF (UnicodeDecodeError): a str described by the
+    # buffer handed to PyUnicode_DecodeUTF8 can only be the expected text when chr(value) is not a surrogate
+    as_u8 = And(Not(And(value >= 0xD800, value <= 0xDFFF)), S.u8len(r) == pl + S.utf8_len(value),
                 z3.ForAll([i], Implies(And(i >= 0, i < pl), z3.Select(S.u8(r), i) == pad)),
                 z3.ForAll([i], Implies(And(i >= 0, i < S.utf8_len(value)), z3.Select(S.u8(r), pl + i) == S.utf8_byte(value, i))))
     return And(S.is_str(r), Or(S.kind(r) == 1, S.kind(r) == 2),
